@@ -176,13 +176,14 @@ def r2_r4(ctx, F, hub):
     for bi in cfg.reachable():
         for st in b.blocks[bi]['stmts']:
             rv = st['rv']
-            if rv['k'] == 'bin' and rv['op'] in ('Eq', 'Ne', 'Lt', 'Gt', 'Le', 'Ge'):
+            if rv['k'] == 'bin' and rv['op'] in ('Eq', 'Ne'):
                 oa, ob = fl.origins(rv['ops'][0]), fl.origins(rv['ops'][1])
                 is_len = lambda os_: bool(os_) and all(o.kind == 'param' and o.key == len_i for o in os_ if o.kind != 'op')
                 is_cnt = lambda os_: any((o.kind == 'call' and o.key in ('std::io::Read::read', 'std::io::copy', 'std::fs::Metadata::len', 'std::io::Take::<T>::limit')) for o in os_)
                 if (is_len(oa) and is_cnt(ob)) or (is_len(ob) and is_cnt(oa)):
                     oc = fl.outcomes(None, st['dst']['l'])
-                    if any(cfg.edges_guard(e, lb) for e in oc.values() if e):
+                    eq_e = oc.get('true' if rv['op'] == 'Eq' else 'false', set())
+                    if eq_e and cfg.edges_guard(eq_e, lb):
                         counted = True
     ctx.check(counted, 'C10.R4', 'handle_put:length-check', 'streamed byte count == len guards the commit',
               'handle_put never compares the number of streamed bytes with the declared `len`: input closed early with a hash matching the short content commits it',
